@@ -353,9 +353,10 @@ TObs ==
 (***************************************************************************)
 FrontProp(front) == CASE front = "rust" -> "C10" [] front = "py" -> "C14" [] front = "wasm" -> "C17"
 
-EmitH(props, kind, h, k, extra) ==
+EmitHX(props, kind, h, k, extra, why) ==
   PrintT(ToJson([verdict |-> kind, props |-> props, g |-> 0, r |-> 0, h |-> h, k |-> k,
-                 first |-> kind, widen |-> 0, explained |-> "", extra |-> extra]))
+                 first |-> kind, widen |-> 0, explained |-> why, extra |-> extra]))
+EmitH(props, kind, h, k, extra) == EmitHX(props, kind, h, k, extra, "")
 JudgeH(ok, props, kind, h, k, extra) == IF ok THEN TRUE ELSE EmitH(props, kind, h, k, extra)
 
 ToCfg(c) == [f \in DOMAIN DefaultCfg |-> c[f]]
@@ -384,7 +385,11 @@ HistFold(front, h, ops, k, objs, mm) ==
                             THEN JudgeH(PyRewrite(op.libcps, r.cfg) = op.outcps, {"C14"}, "py-rewrite", h, k, "")
                                  /\ JudgeH(~r.cfg.escape \/ ~HasBraceEscapeFrom(op.outcps, 1), {"C14"}, "py-brace-escape-left", h, k, "")
                                  /\ JudgeH(op.compiles, {"C14"}, "py-compile", h, k, "")
-                                 /\ JudgeH(AnyClass(r.cfg) \/ r.cfg.surr \/ op.fullmatch, {"C14"}, "py-fullmatch", h, k, "")
+                                 /\ (IF AnyClass(r.cfg) \/ r.cfg.surr \/ op.fullmatch THEN TRUE
+                                     \* known deviation D1: only the empty test case is not matched
+                                     ELSE EmitHX({"C14"}, "py-fullmatch", h, k, "",
+                                                 IF op.failed # <<>> /\ \A i \in DOMAIN op.failed : op.failed[i] = <<>>
+                                                 THEN "eps-dropped" ELSE ""))
                             ELSE JudgeH(op.sid = op.libsid, {P}, "front-differs-from-library", h, k, "")))
                   /\ HistFold(front, h, ops, k + 1, r.objs, mm2)
 
